@@ -17,7 +17,7 @@
 import GraphiqModel.Proofs.Noise
 import GraphiqModel.Proofs.Channel
 import GraphiqModel.Proofs.GateTable
-import GraphiqModel.Proofs.MixtureDMPhysical
+import GraphiqModel.Proofs.MixtureDMLockstep
 namespace Graphiq.C06
 open Graphiq Graphiq.Noise Graphiq.DM
 
@@ -324,6 +324,74 @@ theorem measurement_after_total_loss_is_zero :
         [{ kind := .identity, n0 := .loss 1 true }, { kind := .measZ }] with
       | .ok { ρ := some ρ, .. } => ρ.trace == ⟨0, 0⟩ && ρ.e 0 0 == ⟨0, 0⟩
       | _ => false) = true := by decide +kernel
+
+/-! ### clause (c) with measurements on which all branches agree -/
+
+section clause_c_measurements
+open Graphiq.MixDM
+
+/-- **per-branch measurement = joint measurement when the branches agree.**  Circuits of one-qubit gates, CNOT / CZ with any
+    additive noise (depolarizing probabilities and loss rates in `[0,1]`, Pauli errors, either placement) and noiseless
+    `MeasurementZ` / `ClassicalCNOT` / `ClassicalCZ`, on existing qubits.  If the stabilizer compile returns with the analysis
+    flag `nonUniform` off — at every executed measurement all branches agreed on "random?" and on the outcome — and with total
+    weight above `2·10⁻⁸` (twice the `np.isclose` tolerance of `apply_measurement`; the weight never grows), and the
+    density-matrix compile returns, then the density matrix is `Σ_k w_k ρ(T_k)` of the mixture, entry by entry.  Every number
+    of qubits.  (`per_branch_measurement_differs` below: without the flag condition the statement fails.) -/
+theorem dm_equals_mixture_with_uniform_measurements (ns : Bool) (ne np nc : Nat) (det : Bool) (ops : List COp)
+    (hw : ∀ op ∈ ops, OpOK2 (ne + np) np op) (s : StabSt) (d : DmSt)
+    (hs : compileStab ns ne np nc det ops = .ok s) (hd : compileDM ns ne np nc det ops = .ok d)
+    (hu : s.nonUniform = false) (hW : wThr < Mix.total s.mix) :
+    ∃ ρ, d.ρ = some ρ ∧ Mat.EqOn ρ (mixtureDensity (ne + np) s.mix) :=
+  dm_equals_mixture_meas ns ne np nc det ops hw s d hs hd hu hW
+
+/-- one measurement, Hilbert-space level, all branches random: the per-branch update is `2 Π_o R Π_o` of `R = Σ w_k ρ(T_k)`,
+    and both outcomes have probability `(Σ w_k)/2` -/
+theorem uniform_random_measurement (n q : Nat) (hq : q < n) (det : Bool) (m : Mixture) (hg : MixGood n m)
+    (hu : Uniform q det true det m) :
+    mixRho n (Mix.measure q det m).1 = (2 : ℂ) • (projZ n q det * mixRho n m * projZ n q det) ∧
+    (∀ s, (mixRho n m * projZ n q s).trace = ((Mix.total m : ℚ) : ℂ) / 2) :=
+  ⟨(measure_random n q hq det m hg hu).1, (measure_random n q hq det m hg hu).2.1⟩
+
+/-- … all branches deterministic with the same outcome `o`: the mixture does not change, `Π_o` fixes `R` -/
+theorem uniform_deterministic_measurement (n q : Nat) (hq : q < n) (det o : Bool) (m : Mixture) (hg : MixGood n m)
+    (hu : Uniform q det false o m) :
+    mixRho n (Mix.measure q det m).1 = mixRho n m ∧ projZ n q o * mixRho n m * projZ n q o = mixRho n m ∧
+    (mixRho n m * projZ n q o).trace = ((Mix.total m : ℚ) : ℂ) :=
+  ⟨(measure_det n q hq det o m hg hu).1, (measure_det n q hq det o m hg hu).2.1, (measure_det n q hq det o m hg hu).2.2.1⟩
+
+/-- non-vacuity: the noisy two-qubit circuit of `exCircuit` (depolarizing, Pauli error, photon loss), then `MeasurementZ` of
+    the emitter and a `ClassicalCNOT` onto the photon -/
+def exMeasCircuit : List COp :=
+  exCircuit ++ [ { kind := .measZ, r1 := 0, t1 := .e, c := 0 },
+                 { kind := .ccnot, r1 := 0, t1 := .e, r2 := 0, t2 := .p, c := 0 } ]
+
+example : ∀ op ∈ exMeasCircuit, OpOK2 (1 + 1) 1 op := by
+  intro op h
+  simp only [exMeasCircuit, exCircuit, List.cons_append, List.nil_append, List.mem_cons, List.not_mem_nil, or_false] at h
+  rcases h with rfl | rfl | rfl | rfl
+  · exact .unitary ⟨⟨by decide, fun h => by simp [Kind.isCtrlPair, Kind.isClassicalCtrl] at h,
+      fun h => by simp [Kind.isCtrlPair] at h⟩, Or.inl rfl, ⟨by norm_num, by norm_num⟩, trivial⟩ trivial trivial
+  · exact .unitary ⟨⟨by decide, fun _ => by decide, fun _ => by decide⟩, Or.inr rfl, trivial, trivial⟩ trivial
+      (by show (0 : Rat) ≤ 1/4 ∧ (1/4 : Rat) ≤ 1; constructor <;> norm_num)
+  · exact .meas (Or.inl rfl) ⟨by decide, fun h => by simp [Kind.isCtrlPair, Kind.isClassicalCtrl] at h,
+      fun h => by simp [Kind.isCtrlPair] at h⟩ rfl rfl
+  · exact .meas (Or.inr (Or.inl rfl)) ⟨by decide, fun _ => by decide, fun h => by simp [Kind.isCtrlPair] at h⟩ rfl rfl
+
+/-- on it both compilers return, the flag is off, the weight is `3/4` (the measurement happens after a photon loss), and — as the
+    theorem says — the matrices agree -/
+example :
+    (match compileDM true 1 1 1 true exMeasCircuit, compileStab true 1 1 1 true exMeasCircuit with
+      | .ok { ρ := some ρ, .. }, .ok s =>
+          !s.nonUniform && Mix.total s.mix == 3/4 && Mat.beq ρ (mixtureDensity 2 s.mix)
+      | _, _ => false) = true := by decide +kernel
+
+/-- the hypothesis is sharp: on the witness of finding F2 (`X` with depolarizing noise, then a Z measurement) the flag is on -/
+theorem per_branch_measurement_is_flagged :
+    (match compileStab true 1 0 1 true [{ kind := .x, n0 := .depol (1/3) true }, { kind := .measZ }] with
+      | .ok s => s.nonUniform
+      | _ => false) = true := by decide +kernel
+
+end clause_c_measurements
 
 /-! ### known finding F2, as a theorem about the model that mirrors the code -/
 
